@@ -29,6 +29,11 @@ def to_code_data(code: CodeType) -> CodeData:
     else:
         posonlyargcount = 0
 
+    if code.co_nlocals != len(code.co_varnames):
+        raise NotImplementedError(
+            "Only support code where the number of locals is the number of varnames"
+        )
+
     line_mapping = to_line_mapping(code)
 
     line_mapping.modify_line_offsets(code.co_firstlineno)
